@@ -52,6 +52,17 @@ pub fn weighted(w: u32, weights: &[u32]) -> usize {
     weights.len() - 1
 }
 
+/// the fault words of a request: none, one, or (one faulty request in seven) two independent ones
+pub fn fault_words(faulty: bool, fw: u32, extra: u32) -> Vec<u32> {
+    if !faulty {
+        vec![]
+    } else if gate(extra.rotate_left(13), 140) {
+        vec![fw, fw.rotate_left(11) ^ extra.wrapping_mul(0x9e37_79b9)]
+    } else {
+        vec![fw]
+    }
+}
+
 /// true with probability permille/1000; false for small words (so shrinking removes it)
 pub fn gate(w: u32, permille: u32) -> bool {
     let thr = ((1000 - permille.min(1000)) as u64 * (1u64 << 32)) / 1000;
@@ -208,8 +219,9 @@ pub fn profile(prop: Prop, thorough: bool) -> Profile {
 
 // ---------------------------------------------------------------- world
 
+// two of the names contain another one ("acct1" in "acct10", "acct3" in "acct3x")
 pub const POOL: [&str; 8] = [
-    "acct0", "acct1", "acct2", "acct3", "acct4", "acct5", "acct6", "acct7",
+    "acct0", "acct1", "acct2", "acct3", "acct4", "acct10", "acct6", "acct3x",
 ];
 
 #[derive(Clone, Debug)]
@@ -261,6 +273,10 @@ pub fn build_world(w: &[u32; WORLD_WORDS], p: &Profile) -> WorldSpec {
     let n_quote = 1 + weighted(w[3], &[70, 30]);
     let base = "base".to_string();
     let mut convertibles: Vec<String> = (0..n_conv).map(|i| format!("conv{}", i + 1)).collect();
+    if n_conv >= 1 && gate(w[2].rotate_left(9), 250) {
+        // a convertible denomination whose name contains the base denomination's
+        convertibles[0] = format!("{}.c1", base);
+    }
     let mut quotes: Vec<String> = (0..n_quote).map(|i| format!("quote{}", i + 1)).collect();
     if n_quote == 2 && gate(w[3].rotate_left(9), 300) {
         // one denomination's name contained in the other's
@@ -452,11 +468,12 @@ pub struct Interp<'a> {
 }
 
 fn uuid_of(n: u64) -> String {
-    format!("00000000-0000-4000-8000-{:012x}", n)
+    // hex letters in every id, so that an upper-case spelling is a different string
+    format!("a1b2c3d4-0000-4000-8000-{:012x}", n)
 }
 
 fn legacy_uuid_of(n: u64) -> String {
-    format!("00000000000040008000{:012x}", 0xeee000u64 + n)
+    format!("a1b2c3d4000040008000{:012x}", 0xeee000u64 + n)
 }
 
 const PRICE_MANTS: [u128; 17] = [1, 2, 3, 5, 10, 4, 7, 15, 25, 99, 100, 125, 1000, 12345, 123456789, 1234567890123456789, 99999999999999999999];
@@ -696,6 +713,27 @@ impl<'a> Interp<'a> {
         let kind = weighted(w[0], &kinds);
         let faulty = gate(w[6], self.p.fault);
         let fw = w[5];
+        let step = self.concretise_kind(kind, w, book, cfg, faulty, fw);
+        // whatever faults were combined, the attached funds stay a list the bank module would
+        // deliver: sorted by denomination, one entry per denomination, no zero amounts
+        step.map(|s| match s {
+            Step::Execute { sender, mut funds, msg } => {
+                funds.sort();
+                let mut merged: Vec<(String, u128)> = vec![];
+                for (d, a) in funds {
+                    match merged.last_mut() {
+                        Some((ld, la)) if *ld == d => *la = la.saturating_add(a),
+                        _ => merged.push((d, a)),
+                    }
+                }
+                merged.retain(|(_, a)| *a > 0);
+                Step::Execute { sender, funds: merged, msg }
+            }
+            other => other,
+        })
+    }
+
+    fn concretise_kind(&mut self, kind: usize, w: &[u32; OP_WORDS], book: &Book, cfg: &Cfg, faulty: bool, fw: u32) -> Option<Step> {
         match kind {
             K_CREATE_ASK => Some(self.create_ask(w, book, cfg, faulty, fw)),
             K_CREATE_BID => Some(self.create_bid(w, book, cfg, faulty, fw)),
@@ -736,7 +774,7 @@ impl<'a> Interp<'a> {
             }
         }
         let mut funds = self.escrow(&base, size);
-        if faulty {
+        for fw in fault_words(faulty, fw, w[11]) {
             match pick(fw, 20) {
                 0 => funds = bump(funds, &base, 1, true),
                 1 => funds = bump(funds, &base, 1, false),
@@ -828,7 +866,7 @@ impl<'a> Interp<'a> {
         let fee_amt = cfg.bid_fee.as_ref().and_then(|f| exact_fee(&f.1, total)).unwrap_or(0);
         let mut fee: Option<(String, u128)> = if fee_amt > 0 { Some((quote.clone(), fee_amt)) } else { None };
         let mut funds = self.escrow(&quote, total.saturating_add(fee_amt));
-        if faulty {
+        for fw in fault_words(faulty, fw, w[11]) {
             match pick(fw, 24) {
                 0 => funds = bump(funds, &quote, 1, true),
                 1 => funds = bump(funds, &quote, 1, false),
@@ -954,7 +992,7 @@ impl<'a> Interp<'a> {
         let mut funds = vec![];
         let mut ask_id = a.id.clone();
         let mut bid_id = b.id.clone();
-        if faulty {
+        for fw in fault_words(faulty, fw, w[11]) {
             match pick(fw, 16) {
                 1 | 2 => sender = other_roles(book, cfg, &cfg.executors, w[9]),
                 3 => size = m + 1,
@@ -1030,7 +1068,7 @@ impl<'a> Interp<'a> {
                 }
             };
         }
-        if faulty {
+        for fw in fault_words(faulty, fw, w[11]) {
             match pick(fw, 10) {
                 0..=3 => {
                     let auth: Vec<String> = if kind == K_CANCEL_ASK { vec![owner.clone()] } else { cfg.executors.clone() };
@@ -1082,13 +1120,13 @@ impl<'a> Interp<'a> {
                 }
             };
         }
-        if faulty {
+        for fw in fault_words(faulty, fw, w[11]) {
             match pick(fw, 10) {
                 0..=3 => {
                     let auth: Vec<String> = if kind == K_CANCEL_BID { vec![owner.clone()] } else { cfg.executors.clone() };
                     sender = other_roles(book, cfg, &auth, w[9]);
                 }
-                4 => funds = vec![(qd, 1)],
+                4 => funds = vec![(qd.clone(), 1)],
                 5 => id = mangle_id(&id, pick(w[9], 6)),
                 6 if kind == K_REJECT_BID => size = Some(remaining + inc),
                 7 if kind == K_REJECT_BID => size = Some(0),
@@ -1122,7 +1160,7 @@ impl<'a> Interp<'a> {
         let mut base = cfg.base.clone();
         let mut sender = if cfg.approvers.is_empty() { POOL[0].to_string() } else { cfg.approvers[pick(w[7], cfg.approvers.len())].clone() };
         let mut funds = self.escrow(&base, size);
-        if faulty {
+        for fw in fault_words(faulty, fw, w[11]) {
             match pick(fw, 12) {
                 0..=2 => sender = other_roles(book, cfg, &cfg.approvers, w[9]),
                 3 => {
@@ -1264,7 +1302,7 @@ impl<'a> Interp<'a> {
             });
         }
         let mut sender = at(&cfg.executors, pick(w[7], cfg.executors.len()), "acct0");
-        if faulty {
+        for fw in fault_words(faulty, fw, w[11]) {
             match pick(fw, 6) {
                 0..=2 => sender = other_roles(book, cfg, &cfg.executors, w[9]),
                 3 => ch.ask_fee_account = None, // half pair
